@@ -17,6 +17,7 @@ from concurrent.futures import ThreadPoolExecutor
 
 PY = "/venv/bin/python"
 FAST = False
+DIR = "seeded"
 HERE = os.path.dirname(os.path.dirname(os.path.abspath(__file__)))
 
 
@@ -25,10 +26,10 @@ def sh(cmd, **kw):
 
 
 def one(name, tier, workers, seed, commit):
-    d = os.path.join(HERE, "seeded", name)
+    d = os.path.join(HERE, DIR, name)
     meta = json.load(open(os.path.join(d, "meta.json"), encoding="utf-8"))
     prop = meta.get("breaks_property") or name.split("-")[0]
-    wt = f"/tmp/verif-mutants/recheck-{name}-{os.getpid()}"
+    wt = f"/tmp/verif-mutants/recheck-{DIR}-{name}-{os.getpid()}"
     out = wt + "-out"
     r = sh(f"git -C /repo worktree add -q --detach {wt} HEAD")
     if r.returncode:
@@ -64,18 +65,20 @@ def main():
     ap.add_argument("--seed", default="1")
     ap.add_argument("--only")
     ap.add_argument("--missed", action="store_true")
+    ap.add_argument("--dir", default="seeded", help="seeded (expect rc 1) or neutral (expect rc 0)")
     ap.add_argument("--fast", action="store_true", help="detection only: no shrinking, stop at the first failure")
     a = ap.parse_args()
-    global FAST
+    global FAST, DIR
     FAST = a.fast
-    names = sorted(os.path.basename(os.path.dirname(p)) for p in glob.glob(os.path.join(HERE, "seeded", "*", "meta.json")))
+    DIR = a.dir
+    names = sorted(os.path.basename(os.path.dirname(p)) for p in glob.glob(os.path.join(HERE, DIR, "*", "meta.json")))
     if a.only:
         want = set(a.only.split(","))
         names = [n for n in names if n in want or n.split("-")[0] in want]
     if a.missed:
         keep = []
         for n in names:
-            m = json.load(open(os.path.join(HERE, "seeded", n, "meta.json"), encoding="utf-8"))
+            m = json.load(open(os.path.join(HERE, DIR, n, "meta.json"), encoding="utf-8"))
             runs = m.get("check_runs", [])
             if not runs or not runs[-1].get("detected"):
                 keep.append(n)
@@ -91,11 +94,14 @@ def main():
                 print(f"{name}: ERROR {err}", flush=True)
                 continue
             print(f"{name}: rc={run['rc']} {run['wall_s']}s {'; '.join(run['signatures'][:2])[:200]}", flush=True)
-            if run["rc"] != 1:
+            if run["rc"] != (0 if DIR == "neutral" else 1):
                 missed.append(name)
                 if run["rc"] == 2:
                     print("   stderr:", run.get("stderr", "")[-400:].replace("\n", " | "), flush=True)
-    print(f"{len(names)} run, {len(names) - len(missed)} detected; missed: {' '.join(missed)}")
+    if DIR == "neutral":
+        print(f"{len(names)} run, {len(names) - len(missed)} quiet; ALARMS: {' '.join(missed)}")
+    else:
+        print(f"{len(names)} run, {len(names) - len(missed)} detected; missed: {' '.join(missed)}")
 
 
 if __name__ == "__main__":
